@@ -356,10 +356,10 @@ def check_case(case, ctx):
                     cls = 'unsigned-%d' % bits if not signed else 'signed'
                     if included:
                         clause = 'unsigned-wrap:included-alias'
+                    elif base in PLATFORM_WIDTH or base in ('unsigned long', 'size_t'):
+                        clause = 'unsigned-wrap:platform-width-type'        # directly or at the end of an alias chain
                     elif depth >= 2:
                         clause = 'unsigned-wrap:alias-chain'
-                    elif base in PLATFORM_WIDTH or base in ('unsigned long', 'size_t'):
-                        clause = 'unsigned-wrap:platform-width-type'
                     elif not signed:
                         clause = 'unsigned-wrap:%s' % INT_TYPES[base][0]
                     else:
